@@ -98,8 +98,13 @@ class Ctx:
                 h = self.known_hits.setdefault(f["id"], [0, detail, f])
                 h[0] += 1
                 return f["id"]
+        key = json.dumps(sig, sort_keys=True, default=str)
+        for v in self.violations:
+            if v["key"] == key:
+                v["count"] += 1
+                return None
         if len(self.violations) < 50:
-            self.violations.append({"sig": sig, "detail": detail, "replay": replay})
+            self.violations.append({"sig": sig, "detail": detail, "replay": replay, "key": key, "count": 1})
         else:
             self.extra["violations_truncated"] = self.extra.get("violations_truncated", 0) + 1
         return None
@@ -139,7 +144,8 @@ class Ctx:
                     json.dump({"property": self.pid, "sig": v["sig"], "detail": v["detail"], "case": v["replay"],
                                "seed": self.seed, "tier": self.tier}, fh, indent=1, default=str)
                 lines.append("VIOLATION property=%s replay=%s" % (self.pid, path))
-                lines.append("  clause=%s %s" % (v["sig"].get("clause"), json.dumps(v["detail"], default=str)[:600]))
+                lines.append("  sig=%s count=%d %s" % (json.dumps(v["sig"], default=str), v["count"],
+                                                         json.dumps(v["detail"], default=str)[:500]))
         cov = dict(self.cov)
         cov["samples"] = cov["samples"] or ["(none)"]
         cov["rule"] = self.extra.pop("rule", "see DESIGN.md section 6 for this property")
